@@ -110,14 +110,14 @@ let () =
                             (* the implementation's rejection kinds are recognised by their message text (harness addClass);
                                an unrecognised wording ("other") is accepted as any rejection the model predicts, so that a
                                reworded error message is not reported as a difference *)
-                            let reworded = rhs = "other" && (match r with ROk | RFlush -> false | _ -> true) in
+                            let reworded = rhs = "other" && (match r with ROk -> false | _ -> true) in
                             if ares_string r <> rhs && not reworded then mismatch "add" rhs (ares_string r)
                         | _ -> ()))
               | "B", [_] -> (* unreadable input: rejected, state unchanged *)
                   last_op := ("B", "", rhs);
                   (match do_step OAddBad with
                    | BAdd r -> let m = (match r with RFlush -> "flush" | _ -> "other") in
-                       if rhs <> m then mismatch "add-unreadable" rhs m
+                       if rhs <> m && rhs <> "other" then mismatch "add-unreadable" rhs m
                    | _ -> ())
               | ("R" | "r"), [] ->
                   last_r := rhs;
@@ -140,6 +140,10 @@ let () =
                   (match parse_doc h with
                    | None -> mismatch "meta-doc-unparsable-by-model" h ""
                    | Some d -> ignore (do_step (OSetMeta (Some d))); if rhs <> "ok" then mismatch "setmeta" rhs "ok")
+              | "N", [] ->
+                  (* SetMetadata with a value that cannot be read as a document: refused, nothing changes *)
+                  last_op := ("N", "", rhs);
+                  if rhs = "ok" then mismatch "setmeta-unreadable" rhs "err"
               | ("I" | "i"), [] ->
                   (match split_ws rhs with [_; sc] -> last_info := sc | _ -> ());
                   (match do_step OInfo with
